@@ -1,0 +1,76 @@
+//go:build verif
+
+// Package vspec is the vocabulary shared by contracts: every function here is
+// executable (used when a counterexample is replayed on the real code) and is
+// recognised by the verification-condition generator as an abstract operation.
+package vspec
+
+import (
+	"bytes"
+	"strconv"
+	"time"
+)
+
+// Text is a piece of output text.
+type Text struct{ B []byte }
+
+func Lit(s string) Text { return Text{[]byte(s)} }
+func Empty() Text       { return Text{} }
+
+// Num is the decimal text of v, zero-padded to at least w digits.
+func Num(w int, v uint64) Text {
+	s := strconv.FormatUint(v, 10)
+	for len(s) < w {
+		s = "0" + s
+	}
+	return Text{[]byte(s)}
+}
+
+// DecS is the minimal decimal text of a signed value.
+func DecS(v int64) Text { return Text{strconv.AppendInt(nil, v, 10)} }
+
+// Raw is the bytes themselves.
+func Raw(b []byte) Text { return Text{append([]byte{}, b...)} }
+
+// Float is strconv's formatting of the IEEE value with the given bits.
+func Float(bits uint64, fmt byte, prec, size int) Text {
+	return Text{[]byte("float")}
+}
+
+func Cat(ts ...Text) Text {
+	var out []byte
+	for _, t := range ts {
+		out = append(out, t.B...)
+	}
+	return Text{out}
+}
+
+func (t Text) Cat(u Text) Text { return Cat(t, u) }
+
+// SameText reports whether b holds exactly the text t.
+func SameText(b []byte, t Text) bool { return bytes.Equal(b, t.B) }
+
+// BufIs reports whether the buffer currently holds exactly t.
+func BufIs(buf *bytes.Buffer, t Text) bool { return bytes.Equal(buf.Bytes(), t.B) }
+
+// FreshOrWithin: out is nil, freshly allocated, or a window of data (never a third party's memory).
+// Natively this can only be approximated; the generator decides it on slice bases.
+func FreshOrWithin(out, data []byte) bool { return true }
+
+// LocalYMDHMS renders an instant in the process's local time zone.
+func LocalYMDHMS(sec int64) (y, mo, d, h, mi, s int64) {
+	t := time.Unix(sec, 0).Local()
+	yy, mm, dd := t.Date()
+	hh, mi2, ss := t.Clock()
+	return int64(yy), int64(mm), int64(dd), int64(hh), int64(mi2), int64(ss)
+}
+
+// Forall reports whether p holds for every lo <= k < hi.
+func Forall(lo, hi int, p func(k int) bool) bool {
+	for k := lo; k < hi; k++ {
+		if !p(k) {
+			return false
+		}
+	}
+	return true
+}
